@@ -31,8 +31,31 @@ MAX_EXPRESSION_LENGTH = 10000  # Characters
 MAX_AST_DEPTH = 50  # Nesting levels
 MAX_RESULT_BITS = 100_000  # Largest integer a single operation may produce
 MAX_SEQUENCE_LENGTH = 10_000  # Longest str/list/tuple a single operation may produce
+MAX_NESTED_SIZE = 1_000_000  # Largest list/tuple counting everything its nested sequences hold
 MAX_FACTORIAL_ARGUMENT = 1_000
 MAX_ROUND_DIGITS = 10_000
+
+
+def _nested_size(value: Any, memo: dict[int, int] | None = None) -> int:
+    """Size of a value counting the contents of nested sequences (a shared element counts every time it occurs)."""
+    if isinstance(value, (str, bytes)):
+        return 1 + len(value)
+    if isinstance(value, int):
+        return 1 + value.bit_length() // 64
+    if not isinstance(value, (list, tuple)):
+        return 1
+    memo = {} if memo is None else memo
+    if id(value) not in memo:
+        memo[id(value)] = 1 + sum(_nested_size(item, memo) for item in value)
+    return memo[id(value)]
+
+
+def _bounded_sequence(value: Any, times: int = 1) -> Any:
+    """Refuse lists/tuples that are short at every level but huge in total: repetition shares elements,
+    so building them is cheap while comparing or printing them is not."""
+    if isinstance(value, (list, tuple)) and _nested_size(value) * times > MAX_NESTED_SIZE:
+        raise ValueError("Nested sequence is too large")
+    return value
 
 
 def _bounded_pow(base: Any, exponent: Any) -> Any:
@@ -49,6 +72,8 @@ def _bounded_mul(left: Any, right: Any) -> Any:
         if isinstance(seq, (str, bytes, list, tuple)) and isinstance(count, int):
             if count > 0 and len(seq) * count > MAX_SEQUENCE_LENGTH:
                 raise ValueError("Result of * is too long")
+            if count > 0:
+                _bounded_sequence(seq, count)
     if isinstance(left, int) and isinstance(right, int):
         if left.bit_length() + right.bit_length() > MAX_RESULT_BITS:
             raise ValueError("Result of * is too large")
@@ -60,7 +85,7 @@ def _bounded_add(left: Any, right: Any) -> Any:
     if isinstance(left, (str, bytes, list, tuple)) and isinstance(right, (str, bytes, list, tuple)):
         if len(left) + len(right) > MAX_SEQUENCE_LENGTH:
             raise ValueError("Result of + is too long")
-    return operator.add(left, right)
+    return _bounded_sequence(operator.add(left, right))
 
 
 def _bounded_mod(left: Any, right: Any) -> Any:
@@ -645,11 +670,11 @@ class Mitochondria:
 
         # Lists
         elif isinstance(node, ast.List):
-            return [self._compute_node(el) for el in node.elts]
+            return _bounded_sequence([self._compute_node(el) for el in node.elts])
 
         # Tuples
         elif isinstance(node, ast.Tuple):
-            return tuple(self._compute_node(el) for el in node.elts)
+            return _bounded_sequence(tuple(self._compute_node(el) for el in node.elts))
 
         # Comparisons
         elif isinstance(node, ast.Compare):
